@@ -421,9 +421,8 @@ Definition C16_bounded_v3 : Prop :=
 
 Theorem C16_partial_v3 : C16_bounded_v3.
 Proof.
-  refine (conj clique_identity_upto_12 (conj cycle_identity_general (conj _
+  exact (conj clique_identity_upto_12 (conj cycle_identity_general (conj Qcode_count_upto_12
             (conj (fun n k _ Hk => QQ_eq_brute_general n k Hk) ncg_spec)))).
-  intros n k Hn Hk. rewrite <- Qv_is_code by lia. apply Q_count_upto_12; assumption.
 Qed.
 Print Assumptions C16_partial_v3.
 
@@ -431,11 +430,11 @@ Print Assumptions C16_partial_v3.
 Theorem C16_full_reduces_to_Cayley :
   (forall n, (2 <= n)%nat -> brute n (n - 1) = (Z.of_nat n ^ (Z.of_nat n - 2))%Z) -> C16_full.
 Proof.
-  intros HCay. split; [|split; [|split]].
-  - apply clique_identity_reduces_to_Q_count. intros n k Hn Hk. apply Qv_count_from_Cayley; assumption.
-  - exact cycle_identity_general.
-  - intros n k Hn Hk. split; [apply Q_count_from_Cayley; assumption | apply QQ_eq_brute_general; exact Hk].
-  - exact ncg_spec.
+  exact (fun HCay =>
+    conj (clique_identity_reduces_to_Q_count (Qv_count_from_Cayley HCay))
+      (conj cycle_identity_general
+        (conj (fun n k Hn Hk => conj (Q_count_from_Cayley HCay n Hn k Hk) (QQ_eq_brute_general n k Hk))
+           ncg_spec))).
 Qed.
 Print Assumptions C16_full_reduces_to_Cayley.
 
@@ -485,13 +484,7 @@ Print Assumptions C16_holds.
 (* GENERAL: the model's Q and QQ values pass the verified checker for every n, k and every bmax *)
 Theorem C16_Q_model_meets_check_general : forall bmax n k, (1 <= n)%nat -> (0 <= k <= tri (Z.of_nat n))%Z ->
   check_count bmax n k (Qv n k) = true /\ check_count bmax n k (QQv n k) = true.
-Proof.
-  intros bmax n k Hn Hk. unfold check_count, count_spec.
-  destruct (Z.ltb_spec k 0); [lia|].
-  rewrite (Qv_count_general n k Hn Hk), (QQ_eq_brute_general n k Hk).
-  destruct (n <=? Nat.min bmax 7)%nat; [rewrite Z.eqb_refl; auto|].
-  rewrite (cross_eq_brute n k Hn) by lia. rewrite Z.eqb_refl. auto.
-Qed.
+Proof. exact Q_model_meets_check_general. Qed.
 Print Assumptions C16_Q_model_meets_check_general.
 
 (* ---- non-vacuity: concrete non-trivial inputs meeting the hypotheses *)
